@@ -98,6 +98,38 @@ void prefixCase(Ctx& ctx, const SeedDef& sd, std::size_t from, std::size_t to)
 	ctx.state(to - from); ctx.trace();
 }
 
+// (1b) the same proper prefixes offered as files through the file-name overloads (a file reader signals a short read
+// differently from a memory reader): small seeds every prefix, large seeds the last 64 and +-3 bytes around every field
+void filePrefixCase(Ctx& ctx, const SeedDef& sd)
+{
+	std::size_t n = sd.bytes.size();
+	std::set<std::size_t> cuts;
+	if (n <= 8192) for (std::size_t k = 0; k < n; ++k) cuts.insert(k);
+	else {
+		for (std::size_t k = n - 64; k < n; ++k) cuts.insert(k);
+		for (auto& f : sd.fields) for (int d = -3; d <= 3; ++d) { long long k = (long long)f.offset + f.width + d; if (k >= 0 && std::size_t(k) < n) cuts.insert(std::size_t(k)); }
+		for (std::size_t k = sd.consumed > 8 ? sd.consumed - 8 : 0; k < sd.consumed && k < n; ++k) cuts.insert(k);
+	}
+	std::string dir = ctx.freshDir("c07fp");
+	std::string path = dir + "/cut.bin";
+	uint64_t m = 0;
+	for (std::size_t k : cuts) {
+		if ((m & 63) == 0) ctx.sub(sd.name + " file prefix " + std::to_string(k) + " of " + std::to_string(n));
+		mc::writeFile(path, sd.bytes.data(), k);
+		Map out;
+		auto o = mc::guarded([&] { out = sd.saved ? Map::ReadSavedGame(path) : Map::ReadMap(path); });
+		ctx.transition(); ++m;
+		if (k < sd.consumed) {
+			ctx.count("prefix/file-overload-cuts-consumed-portion");
+			if (o.cls == 'R') { ctx.violation(std::string("C07/prefix/accepted-through-file-overload/") + (sd.saved ? "saved-game" : "map"), sd.name + " prefix " + std::to_string(k) + " of " + std::to_string(n) + " (reader consumes " + std::to_string(sd.consumed) + ")", "returned a map with " + std::to_string(out.tiles.size()) + " tiles"); break; }
+			if (o.cls == 'X') { ctx.violation("C07/prefix/non-std-exception", sd.name + " file prefix " + std::to_string(k), ""); break; }
+		}
+		else if (o.cls != 'R') { ctx.violation("C07/prefix/trailing-bytes-cut-rejected-through-file-overload", sd.name + " prefix " + std::to_string(k), o.what); break; }
+	}
+	ctx.state(m); ctx.trace();
+	mc::removeTree(dir);
+}
+
 // ---- (2) field faults ----
 void faultCase(Ctx& ctx, const SeedDef& sd, const mc::FaultSpace& sp, std::size_t from, std::size_t to)
 {
@@ -275,6 +307,7 @@ void build(Ctx& ctx)
 	}
 	gCases.push_back({ 2, 0, 0, 0 });
 	gCases.push_back({ 2, 5, 0, 0 });
+	for (std::size_t sidx = 0; sidx < gSeeds.size(); ++sidx) gCases.push_back({ 6, sidx, 0, 0 });
 	gCases.push_back({ 4, 0, 0, 0 });
 	gCases.push_back({ 4, 0, 1, 0 });
 	gCases.push_back({ 5, 0, 0, 0 });
@@ -290,6 +323,7 @@ void runCase(std::size_t i, Ctx& ctx)
 	case 2: gridCase(ctx, gSeeds[c.seed]); break;
 	case 4: wrapGridCase(ctx, c.from != 0); break;
 	case 5: unitSizeCase(ctx); break;
+	case 6: filePrefixCase(ctx, gSeeds[c.seed]); break;
 	default: equivalenceCase(ctx, c.from, c.to);
 	}
 }
@@ -303,7 +337,7 @@ int main(int argc, char** argv)
 	def.init = build;
 	def.ncases = [](Ctx&) { return gCases.size(); };
 	def.run = runCase;
-	def.describe = [](std::size_t i) { const auto& c = gCases[i]; return std::string(c.kind == 0 ? "prefixes " : c.kind == 1 ? "faults " : c.kind == 2 ? "grid " : c.kind == 4 ? "wrap-consistent grid " : c.kind == 5 ? "unit record sizes " : "equivalence ") + (c.kind < 3 ? gSeeds[c.seed].name : "") + " " + std::to_string(c.from) + ".." + std::to_string(c.to); };
+	def.describe = [](std::size_t i) { const auto& c = gCases[i]; return std::string(c.kind == 0 ? "prefixes " : c.kind == 1 ? "faults " : c.kind == 2 ? "grid " : c.kind == 4 ? "wrap-consistent grid " : c.kind == 5 ? "unit record sizes " : c.kind == 6 ? "file-overload prefixes " : "equivalence ") + (c.kind < 3 ? gSeeds[c.seed].name : "") + " " + std::to_string(c.from) + ".." + std::to_string(c.to); };
 	def.caseTimeoutS = 300;
 	return mc::Main(argc, argv, def);
 }
